@@ -364,7 +364,12 @@ def run_one_path(ex: Exec, repo, c: Contract, mod, node, case, res: FunctionResu
     for name, ty in c.ghost.items():
         fr.locals[name] = ty.fresh(ex, name, fixed=True)
     fr.old = ex.snapshot(fr.locals)
+    ex.entry_old = fr.old
     for clause in c.pre:
+        ex.assume(ex.spec_bool(clause, fr))
+    for clause in c.lemmas:
+        # instances of definitional axioms of specification functions, at the entry state
+        ex.used_intrinsics.add(f"definitional axiom instance: {clause}")
         ex.assume(ex.spec_bool(clause, fr))
     # vacuity: precondition must be satisfiable
     if ex.path_id == "" and c.pre:
